@@ -132,7 +132,7 @@ class FakeReader:
         return self.chunks.pop(0) if self.chunks else b""
 
 
-def run_connection(specs, chunks, on_connect=()):
+def run_connection(specs, chunks, on_connect=(), slow_interrupt=0):
     from tickit.adapters.io.tcp_io import TcpIo
 
     log = []
@@ -144,6 +144,9 @@ def run_connection(specs, chunks, on_connect=()):
         adapter.on_connect = onc
 
     async def raise_interrupt():
+        # a scheduler behind a real bus takes its time: the interrupt suspends before it is published
+        for _ in range(slow_interrupt):
+            await asyncio.sleep(0)
         log.append(("interrupt",))
 
     raised = False
@@ -251,8 +254,9 @@ def main(tier, seed):
         for _ in range(20):
             chunks = [rng.choice(derived + msgs[:300]) for _ in range(rng.randint(2, 8))]
             onc = [rng.choice([None, 90, 91]) for _ in range(rng.randint(0, 2))]
-            log, raised = run_connection(specs, chunks, onc)
-            cases.append(dict(specs=specs, chunks=chunks, on_connect=onc, log=log, raised=raised))
+            slow = rng.choice([0, 0, 15])
+            log, raised = run_connection(specs, chunks, onc, slow_interrupt=slow)
+            cases.append(dict(specs=specs, chunks=chunks, on_connect=onc, log=log, raised=raised, slow=slow))
     for c in cases:
         terms.append(render(c["specs"], c["on_connect"], c["chunks"], c["log"], c["raised"]))
     bad = run_shards(PID, HEADER, "cmd_case", "check_cmd", terms, shard_size=700)
@@ -285,7 +289,7 @@ def main(tier, seed):
                       dict(kind="tcp", specs=[dict(sp, regex=(sp["regex"] if isinstance(sp["regex"], str) else "bytes:" + sp["regex"].hex()))
                                               for sp in c["specs"]],
                            chunks=[m.hex() for m in c["chunks"]], on_connect=c["on_connect"],
-                           events=[list(map(str, e)) for e in c["log"]], raised=c["raised"], codes=bad[i]))
+                           events=[list(map(str, e)) for e in c["log"]], raised=c["raised"], slow=c.get("slow", 0), codes=bad[i]))
     return ck.finish()
 
 
@@ -295,7 +299,7 @@ def replay(rp):
         return 1
     specs = [dict(sp, regex=(bytes.fromhex(sp["regex"][6:]) if sp["regex"].startswith("bytes:") else sp["regex"])) for sp in rp["specs"]]
     chunks = [bytes.fromhex(h) for h in rp["chunks"]]
-    log, raised = run_connection(specs, chunks, rp["on_connect"])
+    log, raised = run_connection(specs, chunks, rp["on_connect"], slow_interrupt=rp.get("slow", 0))
     bad = run_shards("replay", HEADER, "cmd_case", "check_cmd", [render(specs, rp["on_connect"], chunks, log, raised)])
     print("events:", log, "raised:", raised, "codes:", bad.get(0, []))
     return 1 if bad else 0
